@@ -86,6 +86,10 @@ def gen_config(rng, system=None, tier='quick', allow_noniso=True, out_of_window=
         cfg['phases'] = ph
         x0 = [float(rng.uniform(0.005, 0.009)), float(rng.uniform(0.004, 0.008))]
         T0 = rng.uniform(430, 500)
+        if x0[0] > 0.008:
+            # intermediate window (560-660 K): some of the listed phases have a positive driving force at the initial state and
+            # others do not (seeded change F10: a later-listed phase without a two-phase equilibrium crashed setup())
+            T0 = 560.0 + (T0 - 430.0) / 70.0 * 100.0
         gam = {p: float(precip.ALMGSI_GAMMA[p] * rng.uniform(0.85, 1.1)) for p in ph}
         if out_of_window:
             T0 = rng.uniform(750, 820)
